@@ -3,7 +3,7 @@
    getStageFileList before Finalize, [stage_list i] the finalized member list (Model/StageList.v);
    Cases/C06.v holds [wf], [spec] and [model]. *)
 From LC Require Import Lib.Bytes Model.StageList Proofs.StageListP Proofs.StagePathP Proofs.StagePipeP
-  Proofs.StageContentP Proofs.C06TopP Proofs.C06P Proofs.C06Example Cases.C06.
+  Proofs.StageContentP Proofs.StageContentsFmtP Proofs.C06TopP Proofs.C06P Proofs.C06Example Cases.C06.
 
 (* the property predicate (all eleven conjuncts of Cases/C06.v [spec_ok], evaluated by the check on
    what the stagemaker binary wrote) holds of the model for every well-formed input: every build-root
@@ -73,6 +73,18 @@ Theorem C06_member_only_if : forall i mf sel, good_input i -> stage_map i = Ok m
   sourced_by i sel k \/ k = root_path \/ exists k0, sourced_by i sel k0 /\ In k (nrparents k0).
 Proof. exact member_only_if. Qed.
 Print Assumptions C06_member_only_if.
+
+(* vdb/contents.go: every well-formed CONTENTS file (names with blanks, quotes, "->" inside
+   obj names, ...) is read back into exactly the recorded names *)
+Theorem C06_contents_roundtrip : forall es, es <> [] -> forallb wf_centry es = true ->
+  parse_contents (render_contents es) = Ok (map centry_name es).
+Proof. exact contents_roundtrip. Qed.
+Print Assumptions C06_contents_roundtrip.
+Example C06_contents_example :
+  let es := [CDir (bs "/usr/share/odd dir"); CObj (bs "/usr/bin/a b -> c") (bs "d3b07384d113edec49eaa6238ad5ff00") (bs "1600000000");
+             CSym (bs "/usr/lib/it's ""x""") (bs "../lib64/x y") (bs "-5")] in
+  es <> [] /\ forallb wf_centry es = true.
+Proof. exact contents_example. Qed.
 
 (* the hypotheses are satisfiable by a non-trivial input on which the pipeline succeeds *)
 Example C06_wf_example : C06.wf ex_case = true /\ C06.kf ex_case = 0%N
